@@ -13,9 +13,11 @@ def get_zone_master_key(*key_parts: str) -> (str, str):
     :param key_parts: list of keys components to be combined
     :return: clear key, key check value
     """
-    p1 = '00' * 16
+    # the combined key has the length of the components (double or triple length keys)
+    key_length = max([len(key_part) for key_part in key_parts], default=32)
+    p1 = '0' * key_length
     for key_part in key_parts:
-        p1 = f'{int(p1, 16) ^ int(key_part, 16):032x}'
+        p1 = f'{int(p1, 16) ^ int(key_part, 16):0{key_length}x}'
     binary_key = unhexlify(p1)
     kcv = calculate_kcv(binary_key)
 
